@@ -1,7 +1,7 @@
-import NaijaVerif.Lemmas.AnalysisRefinePrims
+import NaijaVerif.Lemmas.AnalysisRefineOk
 import NaijaVerif.Lemmas.AnalysisLive
 /-
-BRIDGE, part 3: the relation between a state of `Model/Eval.lean` (scopes with slots, hoisted
+BRIDGE, part 4: the relation between a state of `Model/Eval.lean` (scopes with slots, hoisted
 functions and `decls` merged, output oldest first) and a state of `Model/AnalysisEval.lean` (tagged
 variable scopes, a parallel stack of function scopes, output newest first), and how the
 environment operations of the two models correspond under it.
@@ -23,32 +23,34 @@ def ORel2 {α β : Type} (r : α → β → Prop) : Option α → Option β → 
   | none, none => True
   | _, _ => False
 
-structure FnRel (fe : Eval.FnEntry) (fa : AEval.FnDef) : Prop where
+structure FnRel (o : Orc) (fe : Eval.FnEntry) (fa : AEval.FnDef) : Prop where
   id : fe.id = some fa.id
   params : fe.params = fa.params
   body : fe.body.stmts = fa.body
+  okp : o.par fa.params = true
+  okb : okBlock o fe.body = true
 
 /-- One scope of `Eval` against a variable scope and a function scope of the fragment. -/
-structure ScopeSim (ds : Nat → Option Nat) (drop : Nat → Bool) (se : Eval.Scope N) (ta : AEval.Scope (VE N))
+structure ScopeSim (o : Orc) (ds : Nat → Option Nat) (drop : Nat → Bool) (se : Eval.Scope N) (ta : AEval.Scope (VE N))
     (fa : List AEval.FnDef) : Prop where
   slots : ∀ l, slotValE se l = AEval.findSlot l ta.slots
-  tag : ∀ l, se.decls.contains l = true ↔ ∃ tg, ds l = some tg ∧ ta.tag = some tg
-  fns : ∀ g, ORel2 FnRel (se.fns.find? (fun fd => fd.id == some g))
+  tag : TagOk ds ta.tag se.decls
+  fns : ∀ g, ORel2 (FnRel o) (se.fns.find? (fun fd => fd.id == some g))
     (if drop g then none else fa.find? (fun f => f.id == g))
 
-def EnvSim (ds : Nat → Option Nat) (drop : Nat → Bool) :
+def EnvSim (o : Orc) (ds : Nat → Option Nat) (drop : Nat → Bool) :
     List (Eval.Scope N) → List (AEval.Scope (VE N)) → List (List AEval.FnDef) → Prop
   | [], [], [] => True
-  | se :: es, ta :: ts, fa :: fs => ScopeSim ds drop se ta fa ∧ EnvSim ds drop es ts fs
+  | se :: es, ta :: ts, fa :: fs => ScopeSim o ds drop se ta fa ∧ EnvSim o ds drop es ts fs
   | _, _, _ => False
 
-structure StSim (ds : Nat → Option Nat) (drop : Nat → Bool) (s : Eval.State N) (t : AEval.St (VE N)) : Prop where
-  env : EnvSim ds drop s.env t.env t.fns
+structure StSim (o : Orc) (ds : Nat → Option Nat) (drop : Nat → Bool) (s : Eval.State N) (t : AEval.St (VE N)) : Prop where
+  env : EnvSim o ds drop s.env t.env t.fns
   out : s.out = t.out.reverse
   input : s.input = []
 
 section lemmas
-variable {ds : Nat → Option Nat} {drop : Nat → Bool}
+variable {o : Orc} {ds : Nat → Option Nat} {drop : Nat → Bool}
 
 /-! ### Slots -/
 
@@ -81,7 +83,7 @@ theorem getAt_succ (se : Eval.Scope N) (rest : List (Eval.Scope N)) (q : Nat × 
 
 /-- `lookup_local_env` in both models. -/
 theorem lookup_sim : ∀ {es : List (Eval.Scope N)} {ts : List (AEval.Scope (VE N))} {fs : List (List AEval.FnDef)} (l : Nat),
-    EnvSim ds drop es ts fs → (Eval.findOwned l es).bind (Eval.getAt es) = AEval.lookupEnv ds l ts
+    EnvSim o ds drop es ts fs → (Eval.findOwned l es).bind (Eval.getAt es) = AEval.lookupEnv ds l ts
   | [], [], [], l, _ => by simp [Eval.findOwned, AEval.lookupEnv, AEval.findScope]; cases ds l <;> rfl
   | [], [], _ :: _, _, h | [], _ :: _, _, _, h | _ :: _, [], _, _, h | _ :: _, _ :: _, [], _, h => by cases h
   | se :: es, ta :: ts, fa :: fs, l, h => by
@@ -114,7 +116,7 @@ theorem lookup_sim : ∀ {es : List (Eval.Scope N)} {ts : List (AEval.Scope (VE 
           simp only [AEval.findScope, this, Bool.false_eq_true, ↓reduceIte]
 
 theorem owned_none_of_ds {l : Nat} (hd : ds l = none) : ∀ {es : List (Eval.Scope N)} {ts : List (AEval.Scope (VE N))}
-    {fs : List (List AEval.FnDef)}, EnvSim ds drop es ts fs → Eval.findOwned l es = none
+    {fs : List (List AEval.FnDef)}, EnvSim o ds drop es ts fs → Eval.findOwned l es = none
   | [], [], [], _ => rfl
   | [], [], _ :: _, h | [], _ :: _, _, h | _ :: _, [], _, h | _ :: _, _ :: _, [], h => by cases h
   | se :: es, ta :: ts, fa :: fs, h => by
@@ -166,7 +168,7 @@ theorem find_modify {l : Nat} {w : VE N} : ∀ (slots : List (Eval.Slot N)) (j :
               exact ih
 
 theorem findSlot_isNone_iff {sc : Eval.Scope N} {ta : AEval.Scope (VE N)} {fa : List AEval.FnDef}
-    (hs : ScopeSim ds drop sc ta fa) (l : Nat) :
+    (hs : ScopeSim o ds drop sc ta fa) (l : Nat) :
     (sc.slots.findIdx? (fun sl => sl.id == some l)).isSome = (AEval.findSlot l ta.slots).isSome := by
   rw [← hs.slots l, slotValE, ← find_findIdx]
   cases h : sc.slots.findIdx? (fun sl => sl.id == some l) with
@@ -190,8 +192,8 @@ theorem updateAt_succ (se : Eval.Scope N) (rest : List (Eval.Scope N)) (q : Nat 
   simp [Eval.updateAt]
 
 theorem assign_sim (l : Nat) (w : VE N) : ∀ {es : List (Eval.Scope N)} {ts : List (AEval.Scope (VE N))}
-    {fs : List (List AEval.FnDef)}, EnvSim ds drop es ts fs →
-    ORel2 (fun es' ts' => EnvSim ds drop es' ts' fs) (assignE l w es) (AEval.assignEnv ds l w ts)
+    {fs : List (List AEval.FnDef)}, EnvSim o ds drop es ts fs →
+    ORel2 (fun es' ts' => EnvSim o ds drop es' ts' fs) (assignE l w es) (AEval.assignEnv ds l w ts)
   | [], [], [], _ => by
       simp only [assignE, Eval.findOwned, AEval.assignEnv, Option.map_none]
       cases ds l <;> simp [ORel2, AEval.setIn]
@@ -268,7 +270,7 @@ theorem updateAt_congr (f : VE N → VE N) {root : VE N} : ∀ (es : List (Eval.
           sl.modify j (fun s => { s with val := f s.val }) = sl.modify j (fun s => { s with val := f root }) := by
         intro sl
         induction sl with
-        | nil => intro j _; rfl
+        | nil => intro j _; simp
         | cons x xs ih =>
           intro j hj
           cases j with
@@ -287,53 +289,79 @@ theorem updateAt_congr (f : VE N → VE N) {root : VE N} : ∀ (es : List (Eval.
       rw [e1, e2, updateAt_congr f es (i, j) h']
 
 /-- `define_bound_local` (overwrite or push in the innermost scope) against the fragment's push. -/
+theorem define_scope_sim (l : Nat) (name : Bytes) (v : VE N) {se : Eval.Scope N} {ta : AEval.Scope (VE N)}
+    {fa : List AEval.FnDef} (hs : ScopeSim o ds drop se ta fa) :
+    ScopeSim o ds drop
+      (match se.slots.findIdx? (Eval.Slot.matches (some l) name) with
+       | some j => { se with slots := se.slots.modify j (fun sl => { sl with val := v }) }
+       | none => { se with slots := { id := some l, name := name, val := v } :: se.slots })
+      { ta with slots := ⟨l, v⟩ :: ta.slots } fa := by
+  have hslots : ∀ (newSlots : List (Eval.Slot N)),
+      (∀ l', (newSlots.find? (fun sl => sl.id == some l')).map (·.val) =
+        if l' = l then some v else (se.slots.find? (fun sl => sl.id == some l')).map (·.val)) →
+      ScopeSim o ds drop { se with slots := newSlots } { ta with slots := ⟨l, v⟩ :: ta.slots } fa := by
+    intro ns hns
+    refine ⟨?_, hs.tag, hs.fns⟩
+    intro l'
+    simp only [slotValE, hns l', AEval.findSlot]
+    by_cases hl : l' = l
+    · subst hl; simp
+    · have : (l == l') = false := by simpa using fun e => hl e.symm
+      simp only [hl, ↓reduceIte, this, Bool.false_eq_true]
+      exact hs.slots l'
+  have hm : Eval.Slot.matches (N := N) (some l) name = fun sl => sl.id == some l := by
+    funext sl; simp [Eval.Slot.matches]
+  rw [hm]
+  cases hj : se.slots.findIdx? (fun sl => sl.id == some l) with
+  | some j => exact hslots _ (fun l' => find_modify se.slots j hj l')
+  | none =>
+    refine hslots _ ?_
+    intro l'
+    simp only [List.find?_cons]
+    by_cases hl : l' = l
+    · subst hl; simp
+    · have : (some l == some l') = false := by simpa using fun e => hl e.symm
+      simp [this, hl]
+
 theorem define_sim (l : Nat) (name : Bytes) (v : VE N) {s : Eval.State N} {t : AEval.St (VE N)}
-    (h : StSim ds drop s t) :
-    StSim ds drop (Eval.define s (some l) name v) { t with env := AEval.defineEnv l v t.env } := by
+    (h : StSim o ds drop s t) :
+    StSim o ds drop (Eval.define s (some l) name v) { t with env := AEval.defineEnv l v t.env } := by
   obtain ⟨henv, hout, hin⟩ := h
-  match hse : s.env, hte : t.env, htf : t.fns, henv with
-  | [], [], [], _ =>
-    refine ⟨?_, ?_, ?_⟩
-    · simp [Eval.define, hse, AEval.defineEnv, hte, htf, EnvSim]
-    · simpa [Eval.define, hse] using hout
-    · simpa [Eval.define, hse] using hin
-  | se :: es, ta :: ts, fa :: fs, ⟨hs, hrest⟩ =>
-    have hslots : ∀ (newSlots : List (Eval.Slot N)),
-        (∀ l', (newSlots.find? (fun sl => sl.id == some l')).map (·.val) =
-          if l' = l then some v else (se.slots.find? (fun sl => sl.id == some l')).map (·.val)) →
-        ScopeSim ds drop { se with slots := newSlots } { ta with slots := ⟨l, v⟩ :: ta.slots } fa := by
-      intro ns hns
-      refine ⟨?_, hs.tag, hs.fns⟩
-      intro l'
-      simp only [slotValE, hns l', AEval.findSlot]
-      by_cases hl : l' = l
-      · subst hl; simp
-      · have : (l == l') = false := by simpa using fun e => hl e.symm
-        simp only [hl, ↓reduceIte, this, Bool.false_eq_true]
-        exact hs.slots l'
-    simp only [Eval.define, hse, Eval.Slot.matches]
-    cases hj : se.slots.findIdx? (fun sl => sl.id == some l) with
-    | some j =>
-      refine ⟨?_, hout, hin⟩
-      simp only [hte, htf, AEval.defineEnv]
-      exact ⟨hslots _ (fun l' => find_modify se.slots j hj l'), hrest⟩
-    | none =>
-      refine ⟨?_, hout, hin⟩
-      simp only [hte, htf, AEval.defineEnv]
-      refine ⟨hslots _ ?_, hrest⟩
-      intro l'
-      simp only [List.find?_cons]
-      by_cases hl : l' = l
-      · subst hl; simp
-      · have : (some l == some l') = false := by simpa using fun e => hl e.symm
-        simp [this, hl]
-  | [], _ :: _, _, h | [], [], _ :: _, h | _ :: _, [], _, h | _ :: _, _ :: _, [], h => by cases h
+  cases hse : s.env with
+  | nil =>
+    rw [hse] at henv
+    cases hte : t.env with
+    | nil =>
+      cases htf : t.fns with
+      | nil => exact ⟨by simp [Eval.define, hse, AEval.defineEnv, htf, EnvSim], by simpa [Eval.define, hse] using hout,
+          by simpa [Eval.define, hse] using hin⟩
+      | cons _ _ => rw [hte, htf] at henv; cases henv
+    | cons _ _ => rw [hte] at henv; cases henv
+  | cons se es =>
+    rw [hse] at henv
+    cases hte : t.env with
+    | nil => rw [hte] at henv; cases henv
+    | cons ta ts =>
+      cases htf : t.fns with
+      | nil => rw [hte, htf] at henv; cases henv
+      | cons fa fs =>
+        rw [hte, htf] at henv
+        obtain ⟨hs, hrest⟩ := henv
+        have hsc := define_scope_sim l name v hs
+        simp only [Eval.define, hse, AEval.defineEnv]
+        cases hj : se.slots.findIdx? (Eval.Slot.matches (some l) name) with
+        | some j =>
+          rw [hj] at hsc
+          exact ⟨by simpa only [htf, EnvSim] using And.intro hsc hrest, hout, hin⟩
+        | none =>
+          rw [hj] at hsc
+          exact ⟨by simpa only [htf, EnvSim] using And.intro hsc hrest, hout, hin⟩
 
 /-! ### Functions -/
 
 theorem findFn_sim (g : Nat) : ∀ {es : List (Eval.Scope N)} {ts : List (AEval.Scope (VE N))}
-    {fs : List (List AEval.FnDef)}, EnvSim ds drop es ts fs →
-    ORel2 FnRel (Eval.findFn (fun _ => true) (fun fd => fd.id == some g) es)
+    {fs : List (List AEval.FnDef)}, EnvSim o ds drop es ts fs →
+    ORel2 (FnRel o) (Eval.findFn (fun _ => true) (fun fd => fd.id == some g) es)
       (if drop g then none else AEval.findFn g fs)
   | [], [], [], _ => by simp [Eval.findFn, AEval.findFn, ORel2]
   | [], [], _ :: _, h | [], _ :: _, _, h | _ :: _, [], _, h | _ :: _, _ :: _, [], h => by cases h
